@@ -180,6 +180,60 @@ pub fn run(ctx: &mut Ctx) {
                 }
             }
         }
+        // share envelopes in other shapes: two shares merged onto one envelope; non-first share envelopes
+        // whose (encrypted) subject has been elided - the shares they carry still count
+        if n >= 2 {
+            for _ in 0..12 {
+                let mut chosen: Vec<Vec<bool>> = groups.iter().map(|(_, c)| vec![false; *c]).collect();
+                let mut picked: Vec<(usize, usize)> = Vec::new();
+                for (g, m) in &flat {
+                    if rng.chance(1, 2) {
+                        chosen[*g][*m] = true;
+                        picked.push((*g, *m));
+                    }
+                }
+                if picked.len() < 2 {
+                    continue;
+                }
+                rng.shuffle(&mut picked);
+                // merge the last two picked shares onto one envelope
+                let (ga, ma) = picked[picked.len() - 1];
+                let (gb, mb) = picked[picked.len() - 2];
+                let share_b = shares[gb][mb].assertions_with_predicate(known_values::SSKR_SHARE)[0].clone();
+                let merged = shares[ga][ma].add_assertion_envelope(share_b).unwrap();
+                let mut owned: Vec<Envelope> = Vec::new();
+                for (i, (g, m)) in picked[..picked.len() - 2].iter().enumerate() {
+                    let s = shares[*g][*m].clone();
+                    // every other one (never the first) with its subject elided
+                    owned.push(if i > 0 && i % 2 == 1 { s.elide_removing_target(&s.subject()) } else { s });
+                }
+                let merged_first = rng.chance(1, 2);
+                if merged_first {
+                    owned.insert(0, merged);
+                } else {
+                    owned.push(merged);
+                }
+                let refs: Vec<&Envelope> = owned.iter().collect();
+                let want = quorum(gt, &groups, &chosen);
+                ctx.eval();
+                ctx.count("joins_merged_or_elided_share_envelopes");
+                match trap::guard(|| Envelope::sskr_join(&refs)) {
+                    Err(p) => ctx.violation(&format!("join-panic/{}", p.signature()), &format!("{:?}", p), J::s(pol.clone())),
+                    Ok(Ok(x)) => {
+                        if !want {
+                            ctx.violation("reshaped/accepted-without-quorum", "join over merged / subject-elided share envelopes succeeded without a quorum", J::s(pol.clone()));
+                        } else if !x.is_identical_to(&wrapped) {
+                            ctx.violation("reshaped/wrong-envelope", "join returned another envelope", J::s(pol.clone()));
+                        }
+                    }
+                    Ok(Err(_)) => {
+                        if want {
+                            ctx.violation("reshaped/quorum-rejected", &format!("policy {}: the shares present satisfy the policy (two of them ride on one envelope, some envelopes have an elided subject) but join failed", pol), J::s(pol.clone()));
+                        }
+                    }
+                }
+            }
+        }
         // shares mixed from two different splits
         let (_m2, other_orig) = universe(&mut rng, GenCfg::small(), case ^ 0x77);
         let other_wrapped = other_orig.wrap_envelope();
